@@ -17,6 +17,9 @@ import (
 // attempt at a time. The history is read from the AClient archetypes' committed steps.
 func TestC09Deployed(t *testing.T) {
 	rapid.Check(t, func(t *rapid.T) {
+		if vstat.OverBudget() {
+			return
+		}
 		vstat.Case()
 		h := newHistRec()
 		want := 0
